@@ -414,11 +414,11 @@ theorem defOk_pos : ∀ (l : List Param) (rest : List Param) (sd : Bool),
     cases hd : p.default with
     | none =>
       simp only [List.map_cons, hd, defOkO, Bool.and_eq_true, Bool.not_eq_true'] at h
-      simp only [h.1, ne_eq, not_true, and_false, if_false]
+      simp only [h.1, ne_eq, not_true, if_false]
       simpa [h.1] using ih rest sd hps hr (by simpa [h.1] using h.2)
     | some d =>
       simp only [List.map_cons, hd, defOkO] at h
-      simp only [reduceCtorEq, false_and, if_false, ne_eq, not_false_eq_true, and_self, if_true]
+      simp only [reduceCtorEq, false_and, if_false, ne_eq, not_false_eq_true, if_true]
       exact ih rest true hps hr h
 
 theorem defOkO_somes (ds : List Nat) (sd : Bool) : defOkO sd (ds.map some) = true := by
@@ -715,6 +715,754 @@ theorem render_layout (L : Layout) :
       · simp [kind_vparam _ _ p hp]
       · simp [kind_pparam _ _ p hp]
       · simp [kind_vparam _ _ p hp]
+
+
+/-! ## CPython's reading of what `Signature.__str__` wrote -/
+
+theorem parseSeg_itemTokens (it : Item) : parseSeg (itemTokens it) = some it := by
+  cases it with
+  | slash => rfl
+  | star => rfl
+  | starArg x => obtain ⟨n, ann⟩ := x; cases ann <;> rfl
+  | dstarArg x => obtain ⟨n, ann⟩ := x; cases ann <;> rfl
+  | plain x d => obtain ⟨n, ann⟩ := x; cases ann <;> cases d <;> rfl
+
+theorem comma_not_mem_itemTokens (it : Item) : Token.comma ∉ itemTokens it := by
+  cases it with
+  | slash => simp [itemTokens]
+  | star => simp [itemTokens]
+  | starArg x => obtain ⟨n, ann⟩ := x; cases ann <;> simp [itemTokens, argTokens]
+  | dstarArg x => obtain ⟨n, ann⟩ := x; cases ann <;> simp [itemTokens, argTokens]
+  | plain x d => obtain ⟨n, ann⟩ := x; cases ann <;> cases d <;> simp [itemTokens, argTokens]
+
+theorem rparen_not_mem_itemTokens (it : Item) : Token.rparen ∉ itemTokens it := by
+  cases it with
+  | slash => simp [itemTokens]
+  | star => simp [itemTokens]
+  | starArg x => obtain ⟨n, ann⟩ := x; cases ann <;> simp [itemTokens, argTokens]
+  | dstarArg x => obtain ⟨n, ann⟩ := x; cases ann <;> simp [itemTokens, argTokens]
+  | plain x d => obtain ⟨n, ann⟩ := x; cases ann <;> cases d <;> simp [itemTokens, argTokens]
+
+theorem itemTokens_ne_nil (it : Item) : itemTokens it ≠ [] := by
+  cases it <;> simp [itemTokens, argTokens]
+
+theorem splitComma_noComma (s : List Token) (h : Token.comma ∉ s) : splitComma s = [s] := by
+  induction s with
+  | nil => rfl
+  | cons t r ih =>
+    simp only [List.mem_cons, not_or] at h
+    have ht : ¬ t = Token.comma := fun e => h.1 e.symm
+    simp [splitComma, ht, ih h.2]
+
+theorem splitComma_append (s rest : List Token) (h : Token.comma ∉ s) :
+    splitComma (s ++ Token.comma :: rest) = s :: splitComma rest := by
+  induction s with
+  | nil => simp [splitComma]
+  | cons t r ih =>
+    simp only [List.mem_cons, not_or] at h
+    have ht : ¬ t = Token.comma := fun e => h.1 e.symm
+    simp [splitComma, ht, ih h.2]
+
+theorem splitComma_join (segs : List (List Token)) (hne : segs ≠ [])
+    (h : ∀ s ∈ segs, Token.comma ∉ s) : splitComma (joinComma segs) = segs := by
+  induction segs with
+  | nil => exact absurd rfl hne
+  | cons x rest ih =>
+    cases rest with
+    | nil => simpa [joinComma] using splitComma_noComma x (h x (by simp))
+    | cons y rest' =>
+      simp only [joinComma]
+      rw [splitComma_append _ _ (h x (by simp)), ih (by simp) (fun s hs => h s (by simp [hs]))]
+
+theorem mem_joinComma (t : Token) (segs : List (List Token)) (ht : t ∈ joinComma segs) :
+    t = Token.comma ∨ ∃ s ∈ segs, t ∈ s := by
+  induction segs with
+  | nil => simp [joinComma] at ht
+  | cons x rest ih =>
+    cases rest with
+    | nil => exact Or.inr ⟨x, by simp, by simpa [joinComma] using ht⟩
+    | cons y rest' =>
+      simp only [joinComma, List.mem_append, List.mem_cons] at ht
+      rcases ht with ht | ht | ht
+      · exact Or.inr ⟨x, by simp, ht⟩
+      · exact Or.inl ht
+      · rcases ih ht with h | ⟨s, hs, hts⟩
+        · exact Or.inl h
+        · exact Or.inr ⟨s, by simp [hs], hts⟩
+
+theorem joinComma_ne_nil (segs : List (List Token)) (hne : segs ≠ []) (h : ∀ s ∈ segs, s ≠ []) :
+    joinComma segs ≠ [] := by
+  cases segs with
+  | nil => exact absurd rfl hne
+  | cons x rest =>
+    cases rest with
+    | nil => simpa [joinComma] using h x (by simp)
+    | cons y rest' => simp [joinComma]
+
+theorem untilRparen_append (inner tail : List Token) (h : Token.rparen ∉ inner) :
+    untilRparen (inner ++ Token.rparen :: tail) = some (inner, tail) := by
+  induction inner with
+  | nil => simp [untilRparen]
+  | cons t r ih =>
+    simp only [List.mem_cons, not_or] at h
+    have ht : ¬ t = Token.rparen := fun e => h.1 e.symm
+    simp [untilRparen, ht, ih h.2]
+
+theorem parseSegs_items (items : List Item) : parseSegs (items.map itemTokens) = some items := by
+  induction items with
+  | nil => rfl
+  | cons it rest ih => simp [parseSegs, parseSeg_itemTokens, ih]
+
+theorem takePlain_append (l : List (Arg × Option Nat)) (rest : List Item)
+    (h : ∀ x d r, rest ≠ Item.plain x d :: r) : takePlain (l.map plainItem ++ rest) = (l, rest) := by
+  induction l with
+  | nil =>
+    cases rest with
+    | nil => rfl
+    | cons it r =>
+      cases it with
+      | plain x d => exact absurd rfl (h x d r)
+      | _ => rfl
+  | cons xd l ih => simp [takePlain, plainItem, ih]
+
+theorem positionalDefaults_aligned (m : Nat) (ds : List Nat) :
+    positionalDefaults (List.replicate m none ++ ds.map some) = some ds := by
+  unfold positionalDefaults
+  have h1 : (List.replicate m (none : Option Nat) ++ ds.map some).dropWhile (fun o => o.isNone)
+      = ds.map some := by
+    rw [List.dropWhile_append_of_pos (by simp)]
+    cases ds <;> simp
+  simp only [h1]
+  simp
+
+/-- the `ast.arguments` a layout stands for -/
+def Layout.toArgs (L : Layout) (defaults : List Nat) (returns : Option AnnE) : Args :=
+  { posonly := L.po.map (·.1), args := L.pa.map (·.1), vararg := L.va,
+    kwonly := L.kw.map (·.1), kwDefaults := L.kw.map (·.2), kwarg := L.kk,
+    defaults := defaults, returns := returns }
+
+/-- the part of the item list after the positional parameters -/
+def Layout.starEtc (L : Layout) : List Item :=
+  (match L.va with
+   | some v => [.starArg v]
+   | none => if L.kw.isEmpty then [] else [.star]) ++
+  L.kw.map plainItem ++
+  (match L.kk with | some k => [.dstarArg k] | none => [])
+
+theorem starEtc_not_plain (L : Layout) : ∀ x d r, L.starEtc ≠ Item.plain x d :: r := by
+  intro x d r
+  unfold Layout.starEtc
+  cases L.va <;> cases hkw : L.kw <;> cases L.kk <;> simp [plainItem]
+
+theorem starEtc_not_slash (L : Layout) : ∀ r, L.starEtc ≠ Item.slash :: r := by
+  intro r
+  unfold Layout.starEtc
+  cases L.va <;> cases hkw : L.kw <;> cases L.kk <;> simp [plainItem]
+
+theorem kk_not_plain (kk : Option Arg) :
+    ∀ x d r, (match kk with | some k => [Item.dstarArg k] | none => []) ≠ Item.plain x d :: r := by
+  intro x d r; cases kk <;> simp
+
+theorem parseKwds_kk (kk : Option Arg) :
+    parseKwds (match kk with | some k => [Item.dstarArg k] | none => []) = some kk := by
+  cases kk <;> rfl
+
+theorem parseStarEtc_layout (L : Layout) : parseStarEtc L.starEtc = some (L.va, L.kw, L.kk) := by
+  unfold Layout.starEtc
+  cases hva : L.va with
+  | some v =>
+    simp only [List.cons_append, List.nil_append, List.append_assoc, parseStarEtc]
+    rw [takePlain_append _ _ (kk_not_plain L.kk)]
+    simp [parseKwds_kk]
+  | none =>
+    cases hkw : L.kw with
+    | nil =>
+      simp only [List.isEmpty_nil, if_true, List.map_nil, List.nil_append]
+      cases L.kk <;> simp [parseStarEtc, parseKwds]
+    | cons x kw =>
+      simp only [List.isEmpty_cons, Bool.false_eq_true, if_false, List.cons_append,
+        List.nil_append, parseStarEtc]
+      rw [takePlain_append _ _ (kk_not_plain L.kk)]
+      simp [parseKwds_kk]
+
+theorem splitSlash_noSlash (pos1 : List (Arg × Option Nat)) (r1 : List Item)
+    (h : ∀ r, r1 ≠ Item.slash :: r) : splitSlash pos1 r1 = some ([], pos1, r1) := by
+  cases r1 with
+  | nil => rfl
+  | cons it r =>
+    cases it with
+    | slash => exact absurd rfl (h r)
+    | _ => rfl
+
+theorem items_eq (L : Layout) :
+    L.items = L.po.map plainItem ++ ((if L.po.isEmpty then [] else [.slash]) ++
+      (L.pa.map plainItem ++ L.starEtc)) := by
+  unfold Layout.items Layout.starEtc
+  simp
+
+theorem parseItems_layout (L : Layout) (m : Nat) (ds : List Nat)
+    (h : (L.po ++ L.pa).map (·.2) = List.replicate m none ++ ds.map some) (ret : Option AnnE) :
+    parseItems L.items ret = some (L.toArgs ds ret) := by
+  have hdef := positionalDefaults_aligned m ds
+  rw [← h] at hdef
+  simp only [List.map_append] at hdef
+  unfold parseItems
+  rw [items_eq]
+  by_cases hpo : L.po.isEmpty = true
+  · have hnil : L.po = [] := List.isEmpty_iff.mp hpo
+    simp only [hpo, if_true, List.nil_append]
+    simp only [hnil, List.map_nil, List.nil_append] at hdef ⊢
+    rw [takePlain_append _ _ (starEtc_not_plain L)]
+    simp only [splitSlash_noSlash _ _ (starEtc_not_slash L)]
+    simp [hdef, parseStarEtc_layout, Layout.toArgs, hnil]
+  · have hne : L.po ≠ [] := fun e => hpo (by simp [e])
+    simp only [hpo, Bool.false_eq_true, ↓reduceIte]
+    rw [show ([Item.slash] ++ (L.pa.map plainItem ++ L.starEtc))
+          = Item.slash :: (L.pa.map plainItem ++ L.starEtc) from rfl]
+    rw [takePlain_append L.po _ (by intro _ _ _; simp)]
+    simp only [splitSlash, hne, if_false, takePlain_append _ _ (starEtc_not_plain L)]
+    simp [hdef, parseStarEtc_layout, Layout.toArgs]
+
+/-- **reading back any aligned layout**: CPython's reading of `Signature.__str__`'s text of the
+layout's parameters is the layout's `ast.arguments`, for any return annotation. -/
+theorem parseSig_render_layout (L : Layout) (m : Nat) (ds : List Nat)
+    (h : (L.po ++ L.pa).map (·.2) = List.replicate m none ++ ds.map some) (ret : Option AnnE) :
+    parseSig (render { params := L.params, ret := ret }) = some (L.toArgs ds ret) := by
+  unfold render
+  simp only [render_layout]
+  have hr : Token.rparen ∉ joinComma (L.items.map itemTokens) := by
+    intro hm
+    rcases mem_joinComma _ _ hm with h | ⟨s, hs, hts⟩
+    · cases h
+    · obtain ⟨it, _, rfl⟩ := List.mem_map.mp hs
+      exact rparen_not_mem_itemTokens it hts
+  simp only [List.cons_append, List.nil_append, List.append_assoc, parseSig]
+  rw [untilRparen_append _ _ hr]
+  simp only
+  have hret : parseTail (retTokens ret) = some ret := by cases ret <;> rfl
+  simp only [hret]
+  by_cases hi : L.items = []
+  · simp only [hi, List.map_nil, joinComma, if_true]
+    rw [← hi]
+    exact parseItems_layout L m ds h ret
+  · have hne : L.items.map itemTokens ≠ [] := by simpa using hi
+    have hj := joinComma_ne_nil _ hne (by
+      intro s hs
+      obtain ⟨it, _, rfl⟩ := List.mem_map.mp hs
+      exact itemTokens_ne_nil it)
+    simp only [hj, if_false]
+    rw [splitComma_join _ hne (by
+      intro s hs
+      obtain ⟨it, _, rfl⟩ := List.mem_map.mp hs
+      exact comma_not_mem_itemTokens it)]
+    rw [parseSegs_items]
+    exact parseItems_layout L m ds h ret
+
+
+/-! ## The property theorems -/
+
+theorem norm_names (a : Args) : a.norm.names = a.names := by
+  unfold Args.names allArgs Args.norm
+  cases a.vararg <;> cases a.kwarg <;> simp [Arg.norm, List.map_map, Function.comp_def]
+
+theorem toArgs_layoutOf (a : Args) (hk : a.kwDefaults.length = a.kwonly.length) :
+    (layoutOf a).toArgs a.defaults a.returns = a := by
+  unfold Layout.toArgs layoutOf
+  simp only
+  rw [show (fun (x : Arg × Option Nat) => x.1) = Prod.fst from rfl,
+      show (fun (x : Arg × Option Nat) => x.2) = Prod.snd from rfl]
+  rw [List.map_fst_zip (by simp), List.map_fst_zip (by simp), List.map_fst_zip (by omega),
+      List.map_snd_zip (by omega)]
+
+/-- what `_handleFunctionDef` ends up with for a well-formed definition: no warning, Python's own
+reading of the arguments, `-> None` dropped. -/
+theorem signatureOf_wf (a : Args) (hwf : a.WF = true) :
+    signatureOf a = .ok ({ params := specParams a.norm, ret := normReturns a.returns }, false) := by
+  have hb := build_eq_spec a hwf
+  simp only [Args.WF, Args.parserWF, Bool.and_eq_true, decide_eq_true_eq, nodupB_iff] at hwf
+  obtain ⟨⟨hd, hk⟩, hn⟩ := hwf
+  have hval : validate (specParams a.norm) = none := by
+    rw [specParams_layout]
+    apply layout_valid
+    · apply layoutOf_aligned
+      simpa [Args.norm] using hd
+    · rw [layoutOf_names _ (by simpa [Args.norm] using hk), norm_names]
+      exact hn
+  unfold signatureOf
+  rw [hb]
+  simp only [hval, returnAnnotation_eq a hn]
+
+/-- **`Signature.valid_always`**: for every definition Python accepts, the list handed to
+`inspect.Signature` passes its validation; the `except ValueError` branch is dead. -/
+theorem valid_always (a : Args) (hwf : a.WF = true) :
+    ∃ ps, buildParams a = .ok ps ∧ valid ps = true ∧
+      signatureOf a = .ok ({ params := ps, ret := normReturns a.returns }, false) := by
+  refine ⟨specParams a.norm, build_eq_spec a hwf, ?_, signatureOf_wf a hwf⟩
+  have h := signatureOf_wf a hwf
+  unfold signatureOf at h
+  rw [build_eq_spec a hwf] at h
+  simp only at h
+  unfold valid
+  cases hv : validate (specParams a.norm) with
+  | none => rfl
+  | some e => simp [hv] at h
+
+/-- **`Signature.roundtrip_args`**: for every definition Python accepts, CPython's reading of the
+displayed signature is the source's `ast.arguments` and `returns` — same parameters, order, kinds
+(so the same `/`, `*`, `*args`, `**kw`), the same `defaults` / `kw_defaults` position by position and
+atom by atom, the same annotations — up to the two spellings the property allows (string
+annotations unquoted, `-> None` omitted: `Args.norm`). -/
+theorem roundtrip_args (a : Args) (hwf : a.WF = true) :
+    ∃ s, signatureOf a = .ok (s, false) ∧ parseSig (render s) = some a.norm := by
+  refine ⟨_, signatureOf_wf a hwf, ?_⟩
+  simp only [Args.WF, Args.parserWF, Bool.and_eq_true, decide_eq_true_eq, nodupB_iff] at hwf
+  obtain ⟨⟨hd, hk⟩, _⟩ := hwf
+  have hd' : a.norm.defaults.length ≤ a.norm.posonly.length + a.norm.args.length := by
+    simpa [Args.norm] using hd
+  have hk' : a.norm.kwDefaults.length = a.norm.kwonly.length := by simpa [Args.norm] using hk
+  have hal : ((layoutOf a.norm).po ++ (layoutOf a.norm).pa).map (·.2) =
+      List.replicate (a.norm.posonly.length + a.norm.args.length - a.norm.defaults.length) none
+        ++ a.norm.defaults.map some := by
+    rw [layoutOf_positional_defaults, alignList_eq _ _ hd']
+  rw [specParams_layout, parseSig_render_layout _ _ _ hal]
+  have := toArgs_layoutOf a.norm hk'
+  simpa [Args.norm] using this
+
+/-- **`Signature.roundtrip`** (parameter-list form): reading the displayed signature back gives the
+parameters the source declares — names, order, kinds, default presence and identity, annotation
+identity, position by position. -/
+theorem roundtrip (a : Args) (hwf : a.WF = true) :
+    ∃ s, signatureOf a = .ok (s, false) ∧
+      parse (render s) = some (specParams a.norm, normReturns a.returns) := by
+  obtain ⟨s, h1, h2⟩ := roundtrip_args a hwf
+  exact ⟨s, h1, by simp [parse, h2, Args.norm]⟩
+
+theorem specParams_positional (a : Args) (i : Nat) (hi : i < a.posonly.length + a.args.length) :
+    ((specParams a)[i]?).map (·.default)
+      = some (alignAt (a.posonly.length + a.args.length) a.defaults i) := by
+  have hdefs := layoutOf_positional_defaults a
+  rw [specParams_layout]
+  unfold Layout.params
+  have hpos : ((layoutOf a).po.map (pparam .posOnly) ++ (layoutOf a).pa.map (pparam .posOrKw)).map (·.default)
+      = ((layoutOf a).po ++ (layoutOf a).pa).map (·.2) := by
+    simp [pparam, Function.comp_def]
+  have hlen : ((layoutOf a).po.map (pparam .posOnly) ++ (layoutOf a).pa.map (pparam .posOrKw)).length
+      = a.posonly.length + a.args.length := by
+    simp [layoutOf]
+  rw [List.append_assoc, List.append_assoc, List.getElem?_append_left (by omega), ← List.getElem?_map,
+      hpos, hdefs]
+  simp [hi]
+
+/-- **`Signature.default_alignment`** (Python's rule): the `i`-th positional parameter has a default
+iff `i ≥ npos − |defaults|`, and then it is `defaults[i − (npos − |defaults|)]`. -/
+theorem default_alignment (a : Args) (hwf : a.WF = true) (i : Nat)
+    (hi : i < a.posonly.length + a.args.length) :
+    ∃ ps p, buildParams a = .ok ps ∧ ps[i]? = some p ∧
+      (i < a.posonly.length + a.args.length - a.defaults.length → p.default = none) ∧
+      (∀ h : ¬ i < a.posonly.length + a.args.length - a.defaults.length,
+        ∃ hlt : i - (a.posonly.length + a.args.length - a.defaults.length) < a.defaults.length,
+          p.default = some (a.defaults[i - (a.posonly.length + a.args.length - a.defaults.length)]'hlt)) := by
+  have hb := build_eq_spec a hwf
+  simp only [Args.WF, Args.parserWF, Bool.and_eq_true, decide_eq_true_eq, nodupB_iff] at hwf
+  obtain ⟨⟨hd, _⟩, _⟩ := hwf
+  have hsp := specParams_positional a.norm i (by simpa [Args.norm] using hi)
+  have hn : a.norm.posonly.length + a.norm.args.length = a.posonly.length + a.args.length := by
+    simp [Args.norm]
+  have hds : a.norm.defaults = a.defaults := rfl
+  rw [hn, hds] at hsp
+  cases hp : (specParams a.norm)[i]? with
+  | none => simp [hp] at hsp
+  | some p =>
+    simp only [hp, Option.map_some, Option.some.injEq] at hsp
+    refine ⟨_, p, hb, hp, ?_, ?_⟩
+    · intro hlt
+      rw [hsp]; simp [alignAt, hlt]
+    · intro hge
+      have hlt : i - (a.posonly.length + a.args.length - a.defaults.length) < a.defaults.length := by
+        omega
+      exact ⟨hlt, by rw [hsp]; simp [alignAt, hge, hlt]⟩
+
+/-! ### the ValueError branch: exactly the duplicate names -/
+
+theorem addPositional_names (d : List (Key × Option AnnE)) (numPos : Nat) (defaults : List Nat) (kind : Kind) :
+    ∀ (xs : List Arg) (i0 : Nat) (acc ps : List Param),
+      addPositional d numPos defaults kind xs i0 acc = .ok ps →
+      ps.map (·.name) = acc.map (·.name) ++ xs.map (·.name) := by
+  intro xs
+  induction xs with
+  | nil => intro i0 acc ps h; simp only [addPositional, Res.ok.injEq] at h; simp [h]
+  | cons x xs ih =>
+    intro i0 acc ps h
+    simp only [addPositional] at h
+    cases hg : getDefault numPos defaults i0 with
+    | error e => simp [hg] at h
+    | ok dv =>
+      simp only [hg] at h
+      rw [ih _ _ _ h]
+      simp [mkParam]
+
+theorem addKwonly_names (d : List (Key × Option AnnE)) :
+    ∀ (xs : List Arg) (ds : List (Option Nat)) (acc : List Param), xs.length = ds.length →
+      (addKwonly d xs ds acc).map (·.name) = acc.map (·.name) ++ xs.map (·.name) := by
+  intro xs
+  induction xs with
+  | nil => intro ds acc _; cases ds <;> simp [addKwonly]
+  | cons x xs ih =>
+    intro ds acc hl
+    cases ds with
+    | nil => simp at hl
+    | cons dv ds =>
+      simp only [addKwonly]
+      rw [ih ds _ (by simpa using hl)]
+      simp [mkParam]
+
+theorem buildParams_names (a : Args) (ps : List Param) (h : buildParams a = .ok ps) :
+    ps.map (·.name) = a.names := by
+  unfold buildParams at h
+  simp only at h
+  cases h1 : addPositional (annotationsFromFunction a) (a.posonly.length + a.args.length) a.defaults
+      .posOnly a.posonly 0 [] with
+  | error e => simp [h1] at h
+  | ok p1 =>
+    simp only [h1] at h
+    cases h2 : addPositional (annotationsFromFunction a) (a.posonly.length + a.args.length) a.defaults
+        .posOrKw a.args a.posonly.length p1 with
+    | error e => simp [h2] at h
+    | ok p2 =>
+      simp only [h2] at h
+      have n1 := addPositional_names _ _ _ _ _ _ _ _ h1
+      have n2 := addPositional_names _ _ _ _ _ _ _ _ h2
+      by_cases hk : a.kwonly.length = a.kwDefaults.length
+      · simp only [hk, if_true, Res.ok.injEq] at h
+        subst h
+        unfold Args.names allArgs
+        cases a.vararg <;> cases a.kwarg <;>
+          simp [addKwonly_names _ _ _ _ hk, n1, n2, mkParam]
+      · simp [hk] at h
+
+/-- **`Signature.valid_iff_nodup`**: on anything CPython's *parser* produces, `inspect.Signature`
+rejects pydoctor's parameter list exactly when two parameters share a name — which `ast.parse`
+lets through and the compiler rejects ("duplicate argument"). -/
+theorem valid_iff_nodup (a : Args) (hp : a.parserWF = true) (ps : List Param)
+    (h : buildParams a = .ok ps) : valid ps = true ↔ a.names.Nodup := by
+  constructor
+  · intro hv
+    unfold valid validate at hv
+    have hnone : validateLoop ps .posOnly false [] = none := by
+      cases hh : validateLoop ps .posOnly false [] with
+      | none => rfl
+      | some e => simp [hh] at hv
+    have := validateLoop_nodup ps _ _ [] (by simp) hnone
+    rw [← buildParams_names a ps h]
+    simpa using this
+  · intro hn
+    have hwf : a.WF = true := by
+      simp only [Args.WF, Bool.and_eq_true, nodupB_iff]
+      exact ⟨hp, hn⟩
+    obtain ⟨ps', h1, h2, _⟩ := valid_always a hwf
+    rw [h] at h1
+    cases h1
+    exact h2
+
+/-- FULL-STRENGTH statement without the distinct-names hypothesis (false, kept visible):
+  `∀ a, a.parserWF → ∃ s, signatureOf a = .ok (s, false) ∧ parseSig (render s) = some a.norm`.
+`def f(a, a): pass` passes `ast.parse`; `inspect.Signature` raises ValueError, pydoctor reports
+"has invalid parameters" and shows `()`. Python itself rejects that `def` at compile time, so it is
+not a function definition in the property's sense. -/
+theorem duplicate_counterexample :
+    let a : Args := { posonly := [], args := [⟨0, none⟩, ⟨0, none⟩], vararg := none, kwonly := [],
+                      kwDefaults := [], kwarg := none, defaults := [], returns := none }
+    a.parserWF = true ∧ signatureOf a = .ok ({ params := [], ret := none }, true) ∧
+      parseSig (render { params := [], ret := none }) ≠ some a.norm := by
+  decide
+
+
+/-! ## Overloads: each record keeps, and the page shows, its own signature -/
+
+theorem dictGet_dictSet_eq {V : Type} (d : List (Key × V)) (k : Key) (v : V) :
+    dictGet (dictSet d k v) k = some v := by
+  induction d with
+  | nil => simp [dictSet, dictGet]
+  | cons kv rest ih =>
+    obtain ⟨k', v'⟩ := kv
+    by_cases h : k' = k
+    · simp [dictSet, dictGet, h]
+    · simp [dictSet, dictGet, h, ih]
+
+theorem dictGet_dictSet_ne {V : Type} (d : List (Key × V)) (k k' : Key) (v : V) (hne : k' ≠ k) :
+    dictGet (dictSet d k' v) k = dictGet d k := by
+  induction d with
+  | nil => simp [dictSet, dictGet, hne]
+  | cons kv rest ih =>
+    obtain ⟨k'', v''⟩ := kv
+    by_cases h : k'' = k'
+    · subst h; simp [dictSet, dictGet, hne]
+    · by_cases h2 : k'' = k
+      · subst h2; simp [dictSet, dictGet, h]
+      · simp [dictSet, dictGet, h, h2, ih]
+
+/-- the signature `_handleFunctionDef` computes for a definition (total form) -/
+def sigD (a : Args) : Sig :=
+  match signatureOf a with
+  | .ok (s, _) => s
+  | .error _ => { params := [], ret := none }
+
+theorem signatureOf_total (a : Args) (h : a.parserWF = true) :
+    ∃ b, signatureOf a = .ok (sigD a, b) := by
+  obtain ⟨ps, hps⟩ := build_total a h
+  cases hv : validate ps with
+  | none => exact ⟨false, by simp [sigD, signatureOf, hps, hv]⟩
+  | some e => exact ⟨true, by simp [sigD, signatureOf, hps, hv]⟩
+
+/-- a `def` with another name leaves the entry alone -/
+theorem stepDef_frame (c : Contents) (df : Def) (n : Nat) (hne : df.name ≠ n)
+    (hwf : df.args.parserWF = true) :
+    ∃ c', stepDef c df = .ok c' ∧ dictGet c' (.name n) = dictGet c (.name n) := by
+  obtain ⟨b, hs⟩ := signatureOf_total df.args hwf
+  have hk : Key.name df.name ≠ Key.name n := fun e => hne (by injection e)
+  unfold stepDef
+  simp only [hs]
+  cases skipOf (reuseOf c df.name) df.isOverload with
+  | true => exact ⟨c, by simp, rfl⟩
+  | false =>
+    simp only [Bool.false_eq_true, if_false]
+    exact ⟨_, rfl, dictGet_dictSet_ne _ _ _ _ hk⟩
+
+theorem runDefs_frame (n : Nat) : ∀ (ds : List Def) (c : Contents),
+    (∀ d ∈ ds, d.name ≠ n) → (∀ d ∈ ds, d.args.parserWF = true) →
+    ∃ c', runDefs c ds = .ok c' ∧ dictGet c' (.name n) = dictGet c (.name n) := by
+  intro ds
+  induction ds with
+  | nil => intro c _ _; exact ⟨c, rfl, rfl⟩
+  | cons d ds ih =>
+    intro c hne hwf
+    obtain ⟨c1, h1, g1⟩ := stepDef_frame c d n (hne d (by simp)) (hwf d (by simp))
+    obtain ⟨c2, h2, g2⟩ := ih c1 (fun x hx => hne x (by simp [hx])) (fun x hx => hwf x (by simp [hx]))
+    exact ⟨c2, by simp [runDefs, h1, h2], by rw [g2, g1]⟩
+
+/-- the entry for `n` while a group of overloads is being collected: nothing collected yet and the
+name not bound to an overloaded function, or exactly the records collected so far and no primary. -/
+def Collecting (c : Contents) (n : Nat) (acc : List Sig) : Prop :=
+  (acc = [] ∧ ∀ f, dictGet c (.name n) = some f → f.overloads = []) ∨
+  (acc ≠ [] ∧ dictGet c (.name n) = some { signature := none, overloads := acc })
+
+theorem reuseOf_collecting (c : Contents) (n : Nat) (acc : List Sig) (hc : Collecting c n acc) :
+    reuseOf c n = if acc = [] then none else some { signature := none, overloads := acc } := by
+  unfold reuseOf
+  rcases hc with ⟨rfl, hfresh⟩ | ⟨hne, hget⟩
+  · cases hg : dictGet c (.name n) with
+    | none => simp
+    | some f => simp [hfresh f hg]
+  · simp [hget, hne]
+
+theorem stepDef_overload (c : Contents) (n : Nat) (acc : List Sig) (a : Args)
+    (hc : Collecting c n acc) (hwf : a.parserWF = true) :
+    ∃ c', stepDef c { name := n, isOverload := true, args := a } = .ok c' ∧
+      Collecting c' n (acc ++ [sigD a]) := by
+  obtain ⟨b, hs⟩ := signatureOf_total a hwf
+  unfold stepDef
+  simp only [hs, reuseOf_collecting c n acc hc]
+  by_cases hacc : acc = []
+  · subst hacc
+    simp only [if_true, skipOf, Bool.false_eq_true, if_false]
+    exact ⟨_, rfl, Or.inr ⟨by simp, by simp [dictGet_dictSet_eq]⟩⟩
+  · simp only [hacc, if_false, skipOf, Option.isSome_none, Bool.false_and, Bool.false_eq_true, if_true]
+    exact ⟨_, rfl, Or.inr ⟨by simp, by simp [dictGet_dictSet_eq]⟩⟩
+
+theorem stepDef_primary (c : Contents) (n : Nat) (acc : List Sig) (a : Args)
+    (hc : Collecting c n acc) (hwf : a.parserWF = true) :
+    ∃ c', stepDef c { name := n, isOverload := false, args := a } = .ok c' ∧
+      dictGet c' (.name n) = some { signature := some (sigD a), overloads := acc } := by
+  obtain ⟨b, hs⟩ := signatureOf_total a hwf
+  unfold stepDef
+  simp only [hs, reuseOf_collecting c n acc hc]
+  by_cases hacc : acc = []
+  · subst hacc
+    simp only [if_true, skipOf, Bool.false_eq_true, if_false]
+    exact ⟨_, rfl, by simp [dictGet_dictSet_eq]⟩
+  · simp only [hacc, if_false, skipOf, Bool.and_false, Bool.false_eq_true]
+    exact ⟨_, rfl, by simp [dictGet_dictSet_eq]⟩
+
+theorem runDefs_group (n : Nat) (impl : Args) : ∀ (ds : List Def) (c : Contents) (acc : List Sig)
+    (ovs : List Args),
+    Collecting c n acc →
+    ds.filter (fun d => d.name = n) =
+      ovs.map (fun a => { name := n, isOverload := true, args := a }) ++
+        [{ name := n, isOverload := false, args := impl }] →
+    (∀ d ∈ ds, d.args.parserWF = true) →
+    ∃ c', runDefs c ds = .ok c' ∧
+      dictGet c' (.name n) = some { signature := some (sigD impl), overloads := acc ++ ovs.map sigD } := by
+  intro ds
+  induction ds with
+  | nil => intro c acc ovs _ hf _; simp at hf
+  | cons d ds ih =>
+    intro c acc ovs hc hf hwf
+    have hwf' : ∀ x ∈ ds, x.args.parserWF = true := fun x hx => hwf x (by simp [hx])
+    by_cases hn : d.name = n
+    · simp only [List.filter_cons, hn, decide_true, if_true] at hf
+      cases ovs with
+      | nil =>
+        simp only [List.map_nil, List.nil_append, List.cons.injEq] at hf
+        obtain ⟨hd, hrest⟩ := hf
+        subst hd
+        obtain ⟨c1, h1, g1⟩ := stepDef_primary c n acc impl hc (hwf ⟨n, false, impl⟩ (by simp))
+        have hnone : ∀ x ∈ ds, x.name ≠ n := by
+          intro x hx e
+          have : x ∈ ds.filter (fun d => d.name = n) := List.mem_filter.mpr ⟨hx, by simp [e]⟩
+          rw [hrest] at this
+          simp at this
+        obtain ⟨c2, h2, g2⟩ := runDefs_frame n ds c1 hnone hwf'
+        exact ⟨c2, by simp [runDefs, h1, h2], by rw [g2, g1]; simp⟩
+      | cons a ovs' =>
+        simp only [List.map_cons, List.cons_append, List.cons.injEq] at hf
+        obtain ⟨hd, hrest⟩ := hf
+        subst hd
+        obtain ⟨c1, h1, hc1⟩ := stepDef_overload c n acc a hc (hwf ⟨n, true, a⟩ (by simp))
+        obtain ⟨c2, h2, g2⟩ := ih c1 (acc ++ [sigD a]) ovs' hc1 hrest hwf'
+        exact ⟨c2, by simp [runDefs, h1, h2], by rw [g2]; simp⟩
+    · have hf' : ds.filter (fun d => d.name = n) =
+          ovs.map (fun a => { name := n, isOverload := true, args := a }) ++
+            [{ name := n, isOverload := false, args := impl }] := by
+        simpa [List.filter_cons, hn] using hf
+      obtain ⟨c1, h1, g1⟩ := stepDef_frame c d n hn (hwf d (by simp))
+      have hc1 : Collecting c1 n acc := by
+        unfold Collecting at *
+        rw [g1]
+        exact hc
+      obtain ⟨c2, h2, g2⟩ := ih c1 acc ovs hc1 hf' hwf'
+      exact ⟨c2, by simp [runDefs, h1, h2], g2⟩
+
+/-- **`Signature.overloads_own`**: in any sequence of `def`s in one scope whose definitions named `n`
+are `@overload` × k followed by the implementation (other functions may be interleaved, `n` not
+already an overloaded function), the `k` overload records are, in order, the signatures of their own
+`def`s, and the primary signature is the implementation's. -/
+theorem overloads_own (n : Nat) (ds : List Def) (c : Contents) (ovs : List Args) (impl : Args)
+    (hfresh : ∀ f, dictGet c (.name n) = some f → f.overloads = [])
+    (hf : ds.filter (fun d => d.name = n) =
+      ovs.map (fun a => { name := n, isOverload := true, args := a }) ++
+        [{ name := n, isOverload := false, args := impl }])
+    (hwf : ∀ d ∈ ds, d.args.parserWF = true) :
+    ∃ c', runDefs c ds = .ok c' ∧
+      dictGet c' (.name n) = some { signature := some (sigD impl), overloads := ovs.map sigD } := by
+  have := runDefs_group n impl ds c [] ovs (Or.inl ⟨rfl, hfresh⟩) hf hwf
+  simpa using this
+
+/-- **`Signature.overloads_displayed`**: the page shows, for an overloaded function, one signature
+per overload (not the implementation's), and each one reads back as *its own* `def`'s arguments. -/
+theorem overloads_displayed (impl : Args) (ovs : List Args) (hne : ovs ≠ [])
+    (hwf : ∀ a ∈ ovs, a.WF = true) :
+    let f : Func := { signature := some (sigD impl), overloads := ovs.map sigD }
+    displayed f = ovs.map (fun a => render (sigD a)) ∧
+      (displayed f).map parseSig = ovs.map (fun a => some a.norm) := by
+  have h1 : displayed { signature := some (sigD impl), overloads := ovs.map sigD }
+      = ovs.map (fun a => render (sigD a)) := by
+    unfold displayed
+    have : ovs.map sigD ≠ [] := by simpa using hne
+    simp [this, formatSignature, Function.comp_def]
+  refine ⟨h1, ?_⟩
+  rw [h1, List.map_map]
+  apply List.map_congr_left
+  intro a ha
+  obtain ⟨s, hs, hp⟩ := roundtrip_args a (hwf a ha)
+  have : sigD a = s := by unfold sigD; rw [hs]
+  simp [this, hp]
+
+
+/-! ## Non-vacuity: concrete definitions with all five kinds -/
+
+/-- `def f(p0, p1: "a1" = d1, /, p2=d2, *p3: a3, p4, p5: 'a5' = d5, **p6) -> None` -/
+def exFive : Args :=
+  { posonly := [⟨0, none⟩, ⟨1, some (.str (.atom 1))⟩], args := [⟨2, none⟩],
+    vararg := some ⟨3, some (.atom 3)⟩, kwonly := [⟨4, none⟩, ⟨5, some (.str (.atom 5))⟩],
+    kwDefaults := [none, some 5], kwarg := some ⟨6, none⟩, defaults := [1, 2],
+    returns := some .noneLit }
+
+/-- the hypotheses of the theorems are satisfiable with all five kinds present -/
+example : exFive.WF = true := by decide
+
+/-- … and the conclusion is the expected text `(p0, p1: a1 = d1, /, p2=d2, *p3: a3, p4, p5: a5 = d5, **p6)`:
+string annotations unquoted, `-> None` gone, `/` after the positional-only run, no bare `*` after `*p3`. -/
+example : ∃ s, signatureOf exFive = .ok (s, false) ∧ render s =
+    [.lparen, .name 0, .comma, .name 1, .colon, .ann (.atom 1), .eq, .dflt 1, .comma, .slash, .comma,
+     .name 2, .eq, .dflt 2, .comma, .star, .name 3, .colon, .ann (.atom 3), .comma, .name 4, .comma,
+     .name 5, .colon, .ann (.atom 5), .eq, .dflt 5, .comma, .dstar, .name 6, .rparen] :=
+  ⟨_, by decide, by decide⟩
+
+example : ∃ s, signatureOf exFive = .ok (s, false) ∧ parseSig (render s) = some exFive.norm :=
+  roundtrip_args exFive (by decide)
+
+/-- the round trip is not trivially true: reading back gives the *unquoted* arguments, not the source's -/
+example : exFive.norm ≠ exFive := by decide
+
+/-- default alignment on the example: `p0` has none, `p1` gets `defaults[0]`, `p2` gets `defaults[1]` -/
+example : (specParams exFive.norm).map (·.default) = [none, some 1, some 2, none, none, some 5, none] := by
+  decide
+
+/-- keyword-only without `*args`: a bare `*` is written (`def f(*, p0=d0, **p1)`), and read back -/
+example :
+    let a : Args := { posonly := [], args := [], vararg := none, kwonly := [⟨0, none⟩], kwDefaults := [some 0],
+                      kwarg := some ⟨1, none⟩, defaults := [], returns := some (.atom 9) }
+    a.WF = true ∧ ∃ s, signatureOf a = .ok (s, false) ∧
+      render s = [.lparen, .star, .comma, .name 0, .eq, .dflt 0, .comma, .dstar, .name 1, .rparen,
+                  .arrow, .ann (.atom 9)] ∧
+      parseSig (render s) = some a :=
+  ⟨by decide, _, by decide, by decide, by decide⟩
+
+/-- the model of CPython's parser is not an accept-everything function:
+`(*)`, `(/)`, `(p0=d0, p1)`, `(*, **p0)`, `(**p0, p1)`, `(*p0=d0)`, `(p0, /, p1, /)` are all rejected. -/
+example :
+    parseSig [.lparen, .star, .rparen] = none ∧
+    parseSig [.lparen, .slash, .rparen] = none ∧
+    parseSig [.lparen, .name 0, .eq, .dflt 0, .comma, .name 1, .rparen] = none ∧
+    parseSig [.lparen, .star, .comma, .dstar, .name 0, .rparen] = none ∧
+    parseSig [.lparen, .dstar, .name 0, .comma, .name 1, .rparen] = none ∧
+    parseSig [.lparen, .star, .name 0, .eq, .dflt 0, .rparen] = none ∧
+    parseSig [.lparen, .name 0, .comma, .slash, .comma, .name 1, .comma, .slash, .rparen] = none := by
+  decide
+
+/-- misplacing a default or a separator is visible to the reader: three different texts, three
+different readings (`(p0, p1=d0)`, `(p0=d0, p1=d0)` , `(p0, /, p1=d0)`). -/
+example :
+    parseSig [.lparen, .name 0, .comma, .name 1, .eq, .dflt 0, .rparen] ≠
+      parseSig [.lparen, .name 0, .comma, .slash, .comma, .name 1, .eq, .dflt 0, .rparen] ∧
+    parseSig [.lparen, .name 0, .comma, .name 1, .eq, .dflt 0, .rparen] ≠
+      parseSig [.lparen, .name 0, .eq, .dflt 0, .comma, .name 1, .eq, .dflt 0, .rparen] := by
+  decide
+
+/-- `inspect.Signature`'s validation is not vacuous either: wrong order, a non-default after a
+default, and a duplicate name are each rejected. -/
+example :
+    validate [⟨0, .kwOnly, none, none⟩, ⟨1, .posOrKw, none, none⟩] = some .wrongOrder ∧
+    validate [⟨0, .posOrKw, some 0, none⟩, ⟨1, .posOrKw, none, none⟩] = some .nonDefaultFollowsDefault ∧
+    validate [⟨0, .posOrKw, none, none⟩, ⟨0, .kwOnly, none, none⟩] = some .duplicateName := by
+  decide
+
+/-- overloads: `@overload def g(p0: a1) -> a1`, `@overload def g(p0: a2, /) -> a2`, another function
+in between, then `def g(p0)`: the entry holds the two overloads' own signatures, the page shows
+exactly those two. -/
+def exOv1 : Args := { posonly := [], args := [⟨0, some (.atom 1)⟩], vararg := none, kwonly := [],
+                      kwDefaults := [], kwarg := none, defaults := [], returns := some (.atom 1) }
+def exOv2 : Args := { posonly := [⟨0, some (.atom 2)⟩], args := [], vararg := none, kwonly := [],
+                      kwDefaults := [], kwarg := none, defaults := [], returns := some (.atom 2) }
+def exImpl : Args := { posonly := [], args := [⟨0, none⟩], vararg := none, kwonly := [],
+                       kwDefaults := [], kwarg := none, defaults := [], returns := none }
+
+example :
+    ∃ c', runDefs [] [⟨7, true, exOv1⟩, ⟨8, false, exFive⟩, ⟨7, true, exOv2⟩, ⟨7, false, exImpl⟩] = .ok c' ∧
+      dictGet c' (.name 7) = some { signature := some (sigD exImpl), overloads := [sigD exOv1, sigD exOv2] } :=
+  overloads_own 7 _ [] [exOv1, exOv2] exImpl (by simp [dictGet]) (by decide) (by decide)
+
+example :
+    displayed { signature := some (sigD exImpl), overloads := [sigD exOv1, sigD exOv2] } =
+      [[.lparen, .name 0, .colon, .ann (.atom 1), .rparen, .arrow, .ann (.atom 1)],
+       [.lparen, .name 0, .colon, .ann (.atom 2), .comma, .slash, .rparen, .arrow, .ann (.atom 2)]] := by
+  decide
+
+/-- an `@overload` written after the implementation is skipped (pydoctor reports it): the entry is unchanged -/
+example :
+    ∃ c1 c2, runDefs [] [⟨7, true, exOv1⟩, ⟨7, false, exImpl⟩] = .ok c1 ∧
+      runDefs [] [⟨7, true, exOv1⟩, ⟨7, false, exImpl⟩, ⟨7, true, exOv2⟩] = .ok c2 ∧ c1 = c2 :=
+  ⟨_, _, by decide, by decide, rfl⟩
 
 
 end Signature
